@@ -169,7 +169,7 @@ class Reader:
             elif not s.eof() and is_ch(ex, s.peek(), '-'): expneg = True; s.i += 1
             if s.eof() or not in_range(ex, s.peek(), '0', '9'): raise JsonErr('invalid number')
             while not s.eof() and in_range(ex, s.peek(), '0', '9'): exp.append(s.peek()); s.i += 1
-        if isfloat or len(digits) > 19:
+        if isfloat or len(digits) > 20:
             txt = ('-' if neg else '') + ''.join(str(concrete_digit(ex, d)) for d in digits)
             if frac: txt += '.' + ''.join(str(concrete_digit(ex, d)) for d in frac)
             if exp: txt += 'e' + ('-' if expneg else '') + ''.join(str(concrete_digit(ex, d)) for d in exp)
